@@ -111,15 +111,22 @@ def parse_template(path):
                     cur.loops[k] = t
             elif d.startswith('before') or d.startswith('after'):
                 where = 'before' if d.startswith('before') else 'after'
+                headw = d.split('@<')[0].split()
                 m = re.search(r'#(\d+)', d.split('@<')[0])
                 nth = int(m.group(1)) if m else 0
                 lit = _lits(d)
+                if 'tail' in headw[1:]:
+                    how, lit = 'tail', ['']
+                elif 'stmt' in headw[1:]:
+                    how = 'stmt'
+                else:
+                    how = 'lit'
                 if len(lit) != 1:
                     raise TemplateError('%s:%d need one literal' % (path, ln))
                 block = []
 
-                def setter(t, where=where, nth=nth, lit=lit[0], cur=cur):
-                    cur.inserts.append((where, nth, lit, t))
+                def setter(t, where=where, nth=nth, lit=lit[0], cur=cur, how=how):
+                    cur.inserts.append((where, nth, lit, t, how))
             elif d.startswith('replace'):
                 head = d.split('@<')[0].split()
                 allf = 'all' in head
@@ -210,6 +217,92 @@ def _loops(src, lo, hi):
     return out
 
 
+def _stmt_starts(src, bo, bc):
+    """Yield positions in (bo, bc) where a statement/expression starts (any depth)."""
+    t, cls = src.text, src.cls
+    expect = True
+    j = bo + 1
+    while j < bc:
+        if cls[j] != CODE or t[j].isspace():
+            j += 1
+            continue
+        ch = t[j]
+        if expect and ch not in '})];,':
+            yield j
+            expect = False
+        if ch in '{;}':
+            expect = True
+        elif ch == '=' and t[j + 1:j + 2] == '>':
+            expect = True  # match arm body
+            j += 1
+        j += 1
+
+
+def _stmt_end(src, start, bc):
+    """End of the statement starting at `start`: just after its ';' at the same
+    depth, or just before the '}' that closes the enclosing block (tail expr)."""
+    t, cls = src.text, src.cls
+    depth = 0
+    j = start
+    while j <= bc:
+        if cls[j] == CODE:
+            ch = t[j]
+            if ch in '([{':
+                depth += 1
+            elif ch in ')]}':
+                if depth == 0:
+                    return j
+                depth -= 1
+            elif ch == ';' and depth == 0:
+                return j + 1
+        j += 1
+    return bc
+
+
+def _stmt_span(src, bo, bc, prefix, nth, what):
+    hits = [p for p in _stmt_starts(src, bo, bc) if src.text.startswith(prefix, p)]
+    if len(hits) <= nth:
+        raise LostAnchor('%s: no statement starting with %r (#%d)' % (what, prefix, nth))
+    a = hits[nth]
+    return a, _stmt_end(src, a, bc)
+
+
+def _tail_start(src, bo, bc, what):
+    """Start of the tail expression of the block (bo, bc)."""
+    t, cls = src.text, src.cls
+    depth = 0
+    last = None
+    start = None
+    j = bo + 1
+    kw = None
+    while j < bc:
+        if cls[j] != CODE or t[j].isspace():
+            j += 1
+            continue
+        ch = t[j]
+        if depth == 0 and start is None:
+            start = j
+            m = re.match(r'(if|while|for|loop|match|unsafe)\b', t[j:j + 8])
+            kw = m.group(1) if m else ('{' if ch == '{' else None)
+        if ch in '([{':
+            depth += 1
+        elif ch in ')]}':
+            depth -= 1
+            if depth == 0 and ch == '}' and kw is not None:
+                rest = t[j + 1:bc].lstrip()
+                if not rest.startswith('else') and not rest.startswith('.') and not rest.startswith('?'):
+                    if rest.strip() == '' or not re.match(r'[-+*/%&|^=<>]', rest):
+                        last = start
+                        if rest.strip() != '':
+                            start = None
+        elif ch == ';' and depth == 0:
+            start = None
+        j += 1
+    if start is None:
+        raise LostAnchor('%s: body has no tail expression' % what)
+    return start
+
+
 def render_extract(ex, mode=None, canary=None):
     """Return (text, info).  mode: None | 'twin'.  canary: name of canary to apply."""
     src = load_source(ex.path)
@@ -292,13 +385,19 @@ def render_extract(ex, mode=None, canary=None):
                 raise LostAnchor('%s: loop %d not found (have %d)' % (ex.name, k, len(lp)))
             inserts.append((lp[k], lp[k], '\n' + ltext + '\n'))
             info['spliced'].append('loop %d' % k)
-    for where, nth, lit, itext in ex.inserts:
-        pos = _find_nth(text, lit, nth, ex.name)
-        if not (bo < pos < bc):
-            raise LostAnchor('%s: anchor outside body: %r' % (ex.name, lit))
-        p = pos if where == 'before' else pos + len(lit)
+    for where, nth, lit, itext, how in ex.inserts:
+        if how == 'lit':
+            pos = _find_nth(text, lit, nth, ex.name)
+            if not (bo < pos < bc):
+                raise LostAnchor('%s: anchor outside body: %r' % (ex.name, lit))
+            p = pos if where == 'before' else pos + len(lit)
+        elif how == 'tail':
+            p = _tail_start(s2, bo, bc, ex.name)
+        else:
+            a, b = _stmt_span(s2, bo, bc, lit, nth, ex.name)
+            p = a if where == 'before' else b
         inserts.append((p, p, '\n' + itext + '\n'))
-        info['spliced'].append('%s %r' % (where, lit))
+        info['spliced'].append('%s %s %r' % (where, how, lit))
     # twin rename
     if mode == 'twin':
         nm_end = m.end()
